@@ -98,6 +98,19 @@ m = {"version": 1, "setup_cmd": "./setup.sh",
          {"name": "pv_driver", "path": "harness/pv_driver.cpp", "serves_properties": sorted(CLAIMED),
           "kind_free_text": "C++ harness around libpomerol's public API (replays specification behaviours, records traces)"}],
      "checks": [], "not_applicable": [], "notes": "see DESIGN.md"}
+WF_OBJ = {"C01": "the GreensFunction object", "C02": "the TwoParticleGF object (incl. the table returned by compute)", "C03": "the Hamiltonian object",
+          "C07": "the StatesClassification object", "C09": "the DensityMatrix and EnsembleAverage objects", "C10": "the field operators and their container",
+          "C14": "the Susceptibility object", "C15": "the Vertex4 object"}
+for pid, what in WF_OBJ.items():
+    CLAIMED[pid]["text"] += (" In addition TLC model-checks the life-cycle state machine of the computable objects (spec/Workflow.tla: statuses, which call changes whose data,"
+                             " repeated calls are no-ops, getters served exactly when finished, completion under fairness) and every transition of its state graph plus simulated"
+                             " 40-call histories are replayed on real objects; WorkflowTrace.tla requires outcome, statuses, changed-data set and equality with the canonical"
+                             " linear order for " + what + ".")
+    CLAIMED[pid]["tech"] += "; TLC-generated call histories of the life-cycle state machine replayed and trace-validated"
+CLAIMED["C17"]["text"] += (" Every documented transition of the life-cycle state machine (spec/Workflow.tla) and simulated 40-call histories are executed by the sanitised library as well.")
+CLAIMED["C17"]["tech"] += "; TLC-generated call histories of the life-cycle state machine under ASan/UBSan"
+for pid in ("C03", "C10"):
+    CLAIMED[pid]["text"] += " A subset of the scenarios is re-run on 3 MPI ranks (5 in thorough) and the events recorded on every rank are validated with the same trace specification."
 hooks_file = os.path.join(VERIF, "hooks.json")
 if os.path.exists(hooks_file):
     m["hooks"]["source_commits"] = json.load(open(hooks_file))["source_commits"]
